@@ -54,7 +54,7 @@ func TestC02(t *testing.T) {
 					next = history[j].Clone()
 					edit = e2e.Edit{Kind: "revert", Detail: fmt.Sprintf("to state %d", j)}
 				} else {
-					next, edit = e2e.ApplyRandomEdit(rng, state, e2e.EditOpts{})
+					next, edit = e2e.ApplyRandomEdit(rng, state, e2e.EditOpts{AllowBreak: true})
 				}
 				if err := next.Sync(sb.Repo, state); err != nil {
 					panic(err)
@@ -97,6 +97,15 @@ func TestC02(t *testing.T) {
 			if res.TimedOut || clean.Result.TimedOut {
 				r.Inconclusive(fmt.Sprintf("history %d step %d: plz timed out", i, step))
 				return
+			}
+			if broken := state.Broken(); broken != nil && clean.Result.Exit != 0 {
+				// deliberately failing command: both builds must fail; the history goes on (repair or revert)
+				r.Obs("deliberately_failing_steps", 1)
+				if res.Exit == 0 {
+					r.Violation("cached-build-succeeds-where-clean-fails/"+edit.Kind, fmt.Sprintf("the command of %s fails (clean build exits %d) but the build with the dir cache exits 0", broken.Label(), clean.Result.Exit), map[string]any{"trail": trail, "state": state, "request": request, "compress": compress}, i)
+					return
+				}
+				continue
 			}
 			if clean.Result.Exit != 0 {
 				r.Obs("generator_invalid_states", 1)
